@@ -292,9 +292,28 @@ def tiles_match(real, ref, fmt, levels, maxabs):
     return None
 
 
-def list_tiles(d, fmt, scheme="L/Y/YX"):
+def all_positions(max_level):
+    return [Pos(n, x, y) for n in range(max_level + 1) for y in range(2 ** n) for x in range(2 ** n)]
+
+
+def list_tiles(d, fmt, scheme="L/Y/YX", pio=None, candidates=None):
+    """Positions that have a tile file.  With `pio` and `candidates` the files are attributed through toasty's own
+    tile_path() (how a scheme spells its file names is not part of the cascade / sampling / tiling properties - that
+    is C17's subject); a file that belongs to no candidate position shows up as a position of level -1."""
     import re
     found = set()
+    if pio is not None and candidates is not None:
+        by_path = {os.path.abspath(pio.tile_path(p, format=fmt, makedirs=False)): p for p in candidates}
+        stray = 0
+        for root, _dirs, files in os.walk(d):
+            for f in files:
+                if f.endswith("." + fmt):
+                    p = by_path.get(os.path.abspath(os.path.join(root, f)))
+                    if p is None:
+                        stray += 1
+                        p = Pos(-1, stray, 0)
+                    found.add(p)
+        return found
     for root, _dirs, files in os.walk(d):
         for f in files:
             if f.endswith("." + fmt):
@@ -460,7 +479,18 @@ def run_core(ch, env, prop):
         res["violation"] = viol(prop, "worker-traceback", "%s: a worker failed: %s" % (what, sim.stderr[0][-800:]))
         return res
 
-    on_disk = list_tiles(d, fmt, scheme)
+    if deep:
+        cands = set(leaves)
+        for p in list(leaves):
+            q = p
+            while q.n >= 1:
+                q = Pos(q.n - 1, q.x >> 1, q.y >> 1)
+                cands.add(q)
+        for q in list(cands):
+            cands.update(Pos(q.n, q.x ^ i, q.y ^ j) for i in (0, 1) for j in (0, 1))
+    else:
+        cands = all_positions(start)
+    on_disk = list_tiles(d, fmt, scheme, pio=pio, candidates=cands)
     above = {p for p in on_disk if p.n < start}
     if not c14:
         if above != set(ref):
